@@ -7,6 +7,10 @@ import Verif.C13.Mask
 import Verif.C13.Link
 import Verif.C13.Text
 import Verif.C13.Active
+import Verif.C13.LoaderSplice
+import Verif.C13.Engine
+import Verif.C13.Registry
+import Verif.C14.Masked
 open Lean Verif.Proto Verif.C13 Verif.C14
 
 namespace Verif.C13.Driver
@@ -226,7 +230,11 @@ def handleLoad (j : Json) : Except String Json := do
   | _, _ =>
     let env ← envOf j
     let lines ← linesOf j
-    pure (jLoaded (loadLines env (← getNat j "fuel") lines))
+    let k ← getNat j "fuel"
+    let r := jLoaded (loadLines env k lines)
+    -- every include spliced in place, to depth 8 (`include_splice_all_text`): must load to the same
+    let sp := spliceAll env 8 lines
+    pure (r.setObjVal! "spliced" (jLoaded (loadLines env k sp)) |>.setObjVal! "splicefree" (Json.bool (includeFree env sp)))
 
 def handleRender (j : Json) : Except String Json := do
   let env ← envOf j
@@ -271,14 +279,12 @@ def maskStepsCovered (mtab : List EngEntry) (steps : List Step) : Bool :=
 
 /-- one input string with the mask-threading semantics (`meng` table given). -/
 def runOneM (tab mtab : List EngEntry) (ops : List Op) (fuel : Nat) (input : Str) (seps : Option (List (Nat × Nat))) : Json :=
-  match traceStepsM (engOf tab) (engOf mtab) fuel ops input with
+  match Verif.C14.applyM (engOf tab) (engOf mtab) fuel ops input with
   | .error e => jErr (errTag e)
-  | .ok (stm, o) =>
+  | .ok (stm, res) =>
     let steps := stm.map (·.step)
     if !stepsCovered tab steps || !maskStepsCovered mtab steps then jErr "engine"
-    else match mergeSteps steps (initStart input) (initEnd input) with
-      | none => jErr "IndexError"
-      | some (sm, em) => finishRun (jList jStepM stm) ⟨o, sm, em⟩ seps
+    else finishRun (jList jStepM stm) res seps
 
 def ofSeps (j : Json) : Except String (Option (List (Nat × Nat))) :=
   match j with
@@ -386,6 +392,18 @@ def runShown (c : TextCtx) (tab : List EngEntry) (mtab? : Option (List EngEntry)
       if !stepsCovered tab steps || !maskStepsCovered mtab steps then jErr "engine"
       else finishRun (jList jStep (shownSteps verbose steps)) res none
 
+/-- why `latParse` gives no list: the first token outside the modelled shapes ("unmodelled") or the
+ValueError of `from_string` on glued paths ("ValueError"), whichever the scan meets first. -/
+def yyWhy : Nat → Str → String
+  | 0, _ => "unmodelled"
+  | _ + 1, [] => "unmodelled"
+  | f + 1, c :: r =>
+    match matchTok (c :: r) with
+    | .nomatch => yyWhy f r
+    | .unmodelled => "unmodelled"
+    | .valueError => "ValueError"
+    | .tok _ rest => yyWhy f rest
+
 def handle (j : Json) : Except String Json := do
   let op ← getStr j "op"
   match op with
@@ -423,8 +441,14 @@ def handle (j : Json) : Except String Json := do
         let c ← textCtx defs j
         let calls ← cs.toList.mapM ofCall
         let d0 ← (← getArr j "defaults").mapM ofCps
-        let answers := Link.runCalls (runShown c tab mtab? fuel) ⟨d0⟩ calls
-        pure (Json.arr (answers.map (fun a => a.getD Json.null)).toArray)
+        -- "obj": 1 addresses a second REPP object built from the same text and the same modules dict
+        let tags ← cs.toList.mapM (fun cj => pure (((cj.getObjVal? "obj").toOption.bind (·.getNat?.toOption)).getD 0 == 1))
+        let d1 ← match j.getObjVal? "defaults2" with
+          | .ok (Json.arr a) => a.toList.mapM ofCps
+          | _ => pure []
+        let run := runShown c tab mtab? fuel
+        let answers := Link.runCalls2 run run (⟨d0⟩, ⟨d1⟩) (tags.zip calls)
+        pure (Json.arr (answers.map (fun a => a.2.getD Json.null)).toArray)
       | _, _ => pure Json.null
     let loaded ← match j.getObjVal? "ltexts" with
       | .ok (Json.arr a) => a.toList.mapM (fun lt => do
@@ -432,7 +456,10 @@ def handle (j : Json) : Except String Json := do
           let lines ← Ld.linesOf lt
           pure (Ld.jLoaded (Loader.loadLines env (← getNat lt "fuel") lines)))
       | _ => pure []
-    pure (Json.mkObj [("load", load), ("runs", Json.arr runs.toArray), ("loaded", Json.arr loaded.toArray),
+    let engok := tab.all (fun e => findIterOk e.s.length 0 false e.ms)
+    let adj := (tab.map (fun e => adjacentEmpty 0 e.ms)).sum
+    pure (Json.mkObj [("engok", Json.bool engok), ("adjacent_empty", jNat adj),
+                      ("load", load), ("runs", Json.arr runs.toArray), ("loaded", Json.arr loaded.toArray),
                       ("treeagree", agree), ("session", session)])
   | "load" => Ld.handleLoad j
   | "render" => Ld.handleRender j
@@ -441,7 +468,27 @@ def handle (j : Json) : Except String Json := do
     let str := latStr toks
     pure (Json.mkObj [("yy", cps str), ("reparsed", jParsed (latParse str))])
   | "yyparse" =>
-    pure (Json.mkObj [("reparsed", jParsed (latParse (← getCps j "s")))])
+    let str ← getCps j "s"
+    match latParse str with
+    | some ts => pure (Json.mkObj [("reparsed", jList jYTok ts)])
+    | none => pure (Json.mkObj [("reparsed", jErr (yyWhy (str.length + 1) str)), ("why", Json.str (yyWhy (str.length + 1) str))])
+  | "registry" =>
+    -- two REPP objects over shared module objects (Registry.lean): which calls of the first run, before and
+    -- after the second is constructed
+    let ofD (a : Array Json) : Except String (List (Str × Nat)) := a.toList.mapM (fun x => do
+      let p ← x.getArr?
+      match p.toList with
+      | [k, i] => pure (← ofCps k, ← i.getNat?)
+      | _ => throw "bad registry entry")
+    let d1 ← ofD (← getArr j "d1").toArray
+    let d2 ← ofD (← getArr j "d2").toArray
+    let probes ← (← getArr j "probes").mapM (fun x => do (← x.getArr?).toList.mapM ofCps)
+    let w0 : Link.World := fun _ => []
+    let (w1, r1) := Link.construct w0 d1 []
+    let (w2, _) := Link.construct w1 d2 []
+    let calls := d1.map (·.1)
+    pure (Json.mkObj [("before", jList (fun a => jList jNat (Link.runningCalls w1 r1 calls a)) probes),
+                      ("after", jList (fun a => jList jNat (Link.runningCalls w2 r1 calls a)) probes)])
   | _ => throw s!"bad op {op}"
 
 end Verif.C13.Driver
